@@ -113,3 +113,5 @@ V('C07', 'pending-guard-shared-with-parent', 'edb/pgsql/compiler/context.py', 'e
                     prevlevel.pending_type_rewrite_ctes
                 )
 ''', '', 'C07.R8', 'pending_type_rewrite_ctes:scoped-by-newrel')
+V('C07', 'abstract-types-have-no-policies', PO, 'edb.edgeql.compiler.policies.get_access_policies',
+  '    # The apply_access_policies config flag disables user-specified\n', '    if stype.get_abstract(schema):\n        return ()\n\n    # The apply_access_policies config flag disables user-specified\n', 'C07.R9', 'withheld-only-by-options')
